@@ -45,13 +45,16 @@ int main()
       if (op.empty()) continue;
       try {
          if (op == "params") {
-            // parameters spread over several mappings (several parameter lists), as clients create them
+            // Parameters spread over several parameter lists; lists 0 and 2 (1 and 3, …) have the same nesting level, and
+            // parameters at the same position of different lists have the same name and type: they are structurally
+            // indistinguishable but distinct nodes — a substitution must tell them apart by identity.
             int n = std::stoi(a);
             impl::Mapping* m = nullptr;
             for (int i = 0; i < n; ++i) {
-               if (i % 3 == 0) m = lx.make_mapping(region, Mapping_level{static_cast<std::size_t>(i / 3)});
+               if (i % 3 == 0) m = lx.make_mapping(region, Mapping_level{static_cast<std::size_t>((i / 3) % 2)});
                auto name = "p" + std::to_string(i);
-               auto* p = m->param(lx.get_identifier(util::word_view(reinterpret_cast<const char8_t*>(name.data()), name.size())), lx.int_type());
+               auto spelling = "x" + std::to_string(i % 3);
+               auto* p = m->param(lx.get_identifier(util::word_view(reinterpret_cast<const char8_t*>(spelling.data()), spelling.size())), lx.int_type());
                token[p] = name;
                params.push_back(p);
             }
